@@ -29,6 +29,17 @@ func NewTableWriter(fs storage.FileSystem, id int64) *TableWriter {
 	return &TableWriter{fs: fs, id: atomicNum}
 }
 
+// AdvancePast makes sure that the next table written gets a file number
+// greater than num.
+func (c *TableWriter) AdvancePast(num int64) {
+	for {
+		cur := c.id.Load()
+		if cur > num || c.id.CompareAndSwap(cur, num+1) {
+			return
+		}
+	}
+}
+
 func (c *TableWriter) Write(entries iter.Seq[kv.Entry]) (*Table, error) {
 	reservedNum := c.id.Add(1) - 1
 	f := c.fs.New(fmt.Sprintf("%06d.sst", reservedNum))
